@@ -25,9 +25,14 @@ class StlAstParserVisitor(LtlAstParserVisitor, StlParserVisitor):
 
     def literal_to_fraction(self, text):
         try:
-            return Fraction(Decimal(text))
+            number = Decimal(text)
         except (InvalidOperation, ValueError, TypeError):
-            return Fraction(self.literal_to_float(text))
+            number = Decimal(self.literal_to_float(text))
+        # a time bound is a finite number of a magnitude the monitors can work with
+        # (the exponent is checked before the exact value is built: 1e999999999)
+        if not number.is_finite() or (number != 0 and abs(number.adjusted()) > 308):
+            raise RTAMTException('{} cannot be used as a time bound'.format(text))
+        return Fraction(number)
 
     def __init__(self):
 
